@@ -228,7 +228,8 @@ struct bidi_unsized
 // A really single-pass range (like fcppt::iterator::make_range over std::istream_iterator): all iterators share one
 // cursor, begin() reads the first element, ++ advances the shared cursor and caches the next element.  Traversing it
 // a second time (a second begin(), or advancing a stale copy of an iterator) yields nothing / the wrong elements,
-// and is recorded in `reread` so that the harness can report <fn>:source_read_twice.
+// and is recorded in `reread` (reported as the information counter info:<fn>:source_read_twice; the wrong result that a
+// consuming second traversal produces is what the verdict checks see).
 struct sp_state
 {
   std::vector<int> data;
@@ -378,9 +379,13 @@ struct k_single_pass
 // after a call that consumed `src`: a single-pass source must have been traversed at most once
 template <class SK, class Src> inline void consumed_once(Src const &src, std::string const &name)
 {
+  // Information only, never a verdict: the documentation does not say how often begin() may be called.  A traversal
+  // that really consumes the source before the loop shows up in the result / visit-order checks, which are verdicts.
   if constexpr (std::is_same_v<SK, k_single_pass>)
-    VRT_CHECK(!src.st->reread, name + ":source_read_twice", "the single-pass source was traversed more than once (%u begin() calls, cursor %zu of %zu)",
-              src.st->begins, src.st->cursor, src.st->data.size());
+  {
+    if (src.st->reread)
+      vrt::count("info:" + name + ":source_read_twice");
+  }
 }
 // string of the characters 'a'+x
 struct k_string
